@@ -135,6 +135,7 @@ func (p *StreamPool) remove(conn *connection) {
 // removeGeneration removes conn unless its object has been handed out again
 // since the caller looked at it (under the connection's lock) and saw gen.
 func (p *StreamPool) removeGeneration(conn *connection, gen uint64) {
+	verifYieldRW(11, &p.mu, true)
 	p.mu.Lock()
 	if c, ok := p.conns[conn.key]; ok && c == conn && conn.gen == gen {
 		delete(p.conns, conn.key)
